@@ -99,6 +99,41 @@ def ansJson : Except Fail (Option JTok) → String
 def decFlag (s : String) : Option Bool :=
   if s == "1" then some true else if s == "0" then some false else none
 
+def pairUp : List String → Option (List (String × String))
+  | [] => some []
+  | a :: b :: r => (pairUp r).map fun l => (a, b) :: l
+  | _ => none
+
+def jsTxt (tv : TV) : String :=
+  match jsonLeaf true tv.bytes.isEmpty tv with
+  | .ok none => "none"
+  | .ok (some t) => (match jsonText t with | some bs => encBytes bs | none => "float")
+  | .error e => encFail e
+
+/-- `value.e2em`: one Set of several leaves (refused as a whole at the first value the
+    conversion refuses, in request order), then what is stored, what the plugin validated, and
+    what one Get returns for all of them (PROTO, JSON, JSON_IETF leaf by leaf). -/
+def e2em (items : List (GVal × List Nat)) : String :=
+  let rec conv : List (GVal × List Nat) → Except Fail (List TV)
+    | [] => .ok []
+    | (g, o) :: r =>
+      match toNative g o with
+      | .error e => .error e
+      | .ok tv => match conv r with
+        | .error e => .error e
+        | .ok tvs => .ok (tv :: tvs)
+  match conv items with
+  | .error .panic => "panic"
+  | .error e => "refused " ++ ((encFail e).drop 4).toString
+  | .ok tvs =>
+    if tvs.any docBuildFails then "wedged" else
+    let join (f : TV → String) := ";".intercalate (tvs.map f)
+    let proto := join fun tv => match toGnmi tv with
+      | .ok v => encGVal v
+      | .error e => encFail e
+    let js := join jsTxt
+    "ok stored=" ++ join encTV ++ " proto=" ++ proto ++ " json=" ++ js ++ " jsonm=" ++ js ++ " plugin=" ++ js
+
 /-- handlers for `value.*` operations; the first argument of every operation is the API
     version (`v2` / `v3`): the two Go packages are the same text, the twin is one. -/
 def handle (op : String) (args : List String) : Option String :=
@@ -136,6 +171,11 @@ def handle (op : String) (args : List String) : Option String :=
         | .ok (some t) => (match jsonText t with | some bs => encBytes bs | none => "float")
         | .error e => encFail e
       pure ("ok stored=" ++ encTV tv ++ " proto=" ++ proto ++ " json=" ++ js ++ " plugin=" ++ js)
+  | "e2em", args => do
+    let ps ← pairUp args
+    if ps.isEmpty then none
+    let items ← ps.mapM fun (g, o) => do pure ((← decGVal g), (← decOpts o))
+    pure (e2em items)
   | "strdec", [d, p] => do
     pure (ans (fun s => encBytes (asciiBytes s)) (strDecimal64 (← decInt d) (← decNat p)))
   | _, _ => none
